@@ -99,6 +99,14 @@ def state_table_text():
     # ---- the CLOSED constant
     m = re.search(r"pub\s+const\s+CLOSED\s*:\s*QlogConnectionState\s*=\s*QlogConnectionState::(Base|Granular)\(\s*(?:Base|Granular)ConnectionStates::(\w+)\s*\)", src)
     closed_const = ident(m.group(1), m.group(2)) if m else None
+    # ---- every public state constant
+    public = []
+    for mm in re.finditer(r"pub\s+const\s+(\w+)\s*:\s*QlogConnectionState\s*=\s*QlogConnectionState::(Base|Granular)\(\s*(Base|Granular)ConnectionStates::(\w+)\s*\)", src):
+        if mm.group(2) != mm.group(3):
+            raise TableError("pub const %s: mismatched wrapper" % mm.group(1))
+        public.append((mm.group(1), ident(mm.group(2), mm.group(4))))
+    if len(public) != len(re.findall(r"pub\s+const\s+\w+\s*:\s*QlogConnectionState\b", src)):
+        raise TableError("a `pub const …: QlogConnectionState` has an unexpected right-hand side")
     # ---- events.rs: Event::Terminated
     ev = strip_comments(read(EVENTS_RS))
     m = re.search(r"Event::Terminated\s*=>\s*\{\s*let\s+terminated_state\s*=\s*(Base|Granular)ConnectionStates::(\w+)\s*;\s*self\.conn_state\.update\(terminated_state\.into\(\)\)", ev)
@@ -115,7 +123,7 @@ def state_table_text():
                "unwrap_default_state": unwrap_default}
     all_names = list(names)
     extra = []
-    for v in list(targets.values()) + ([closed_const] if closed_const else []):
+    for v in list(targets.values()) + ([closed_const] if closed_const else []) + [v for _, v in public]:
         if v not in all_names and v not in extra:
             extra.append(v)       # a state without a mapping! row: encode() hits unreachable!()
     out = ["(* GENERATED by tools/extract_state.py from qconnection/src/state.rs and events.rs — do not edit. *)",
@@ -139,6 +147,8 @@ def state_table_text():
     for k, v in targets.items():
         out.append("Definition %s : cstate := %s." % (k, v))
     out.append("Definition closed_const : option cstate := %s." % ("Some " + closed_const if closed_const else "None"))
+    out.append("(* the `pub const …: QlogConnectionState` items: %s *)" % ", ".join(n for n, _ in public))
+    out.append("Definition public_consts : list cstate := [%s]." % "; ".join(v for _, v in public))
     out.append("Definition all_states : list cstate := [%s]." % "; ".join(all_names + extra))
     out.append("(* update(): `if new_state_code <= old_state_code { return None }` then compare_exchange(old, new) *)")
     out.append("Definition update_rejects (new old : N) : bool := new <=? old.")
